@@ -455,6 +455,117 @@ def rule_pair_rows(F, R):
                 R.check(pp(obj(x)) == owner[d], "R-C08-9", "row use@%s" % f.loc(x), f.loc(x), "loop index is used with its own mapping", "loop index of %s indexes %s" % (owner[d], pp(obj(x))))
 
 
+def rule_encodings(F, R):
+    """R-C08-4: one-hot / multi-label encodings written by the flatten loops and by dataset_t::targets"""
+    n = 0
+    seen = set()
+    for f in sorted(F.functions.values(), key=lambda f: f.key):
+        if f.name != "flatten" or len(f.params) != 5 or f.relfile not in ("include/nano/generator/elemwise.h", "include/nano/generator/pairwise.h"):
+            continue
+        segs = [v for v in f.nodes() if v["k"] == "var" and v["n"] == "segment" and v.get("c")]
+        consts = [c for c in f.calls(lambda c: callee(c).split("::")[-1] == "setConstant")]
+        onehot = [c for c in consts if pp(obj(c)) == "segment" and pp(args(c)[0]) in ("(-1)", "-1", "(-1.0)")]
+        rescale = [x for x in f.nodes() if assignment(x) and pp(assignment(x)[0]) == "segment.array()"]
+        conds = " ".join(pp(x["c"][x["r"].index("cond")]) for x in f.nodes() if x["k"] == "if")
+        kind = "sclass" if "generated_sclass_t::generated_type" in conds else "mclass" if "generated_mclass_t::generated_type" in conds else None
+        if kind is None:
+            continue
+        key = (f.relfile, kind)
+        if key in seen:
+            continue
+        seen.add(key)
+        n += 1
+        inst = "%s %s@%s" % (f.relfile.split("/")[-1], kind, f.loc())
+        given_seg = [v for v in segs if re.sub(r"<[^()]*>", "", pp(v["c"][0])) == "storage.vector(index).segment(column, colsize)"]
+        if kind == "sclass":
+            ci = [v for v in f.nodes() if v["k"] == "var" and v["n"] == "class_index" and v.get("c")]
+            guards = [x for x in f.nodes() if x["k"] == "if" and pp(x["c"][x["r"].index("cond")]) == "(class_index < segment.size())"]
+            hot = [x for x in f.nodes() if assignment(x) and pp(assignment(x)[0]) == "segment(class_index)"]
+            ok = len(given_seg) == 1 and len(onehot) == 1 and len(ci) == 1 and pp(ci[0]["c"][0]).startswith("op(values") and len(guards) == 1 and len(hot) == 1 and \
+                pp(assignment(hot[0])[1]) in ("(+1)", "1", "(+1.0)") and any(y is hot[0] for y in walk(guards[0]["c"][guards[0]["r"].index("then")]))
+            if ok:
+                cfg = f.cfg
+                w1, w2 = cfg.where_enclosing(onehot[0]), cfg.where_enclosing(hot[0])
+                ok = w1 is not None and w2 is not None and (cfg.dominates(w1, w2) or (w1[0] == w2[0] and w1[1] < w2[1]))
+            R.check(ok, "R-C08-4", inst, f.loc(), "one-hot: the feature's colsize columns are filled with -1, then +1 at the class index (guarded by the segment size)",
+                    "single-label encoding is no longer `fill -1; +1 at class_index < size` over [column, column+colsize)")
+        else:
+            ops = [c for c in f.calls(lambda c: c.get("op") == "()" and pp(c["c"][0]) == "op" and pp(c["c"][-1]) == "segment")]
+            ok = len(given_seg) == 1 and len(rescale) == 1 and pp(assignment(rescale[0])[1]) == "((2 * segment.array()) - 1)" and len(ops) >= 1
+            if ok:
+                cfg = f.cfg
+                w1, w2 = cfg.where_enclosing(ops[0]), cfg.where_enclosing(rescale[0])
+                ok = w1 is not None and w2 is not None and (cfg.dominates(w1, w2) or (w1[0] == w2[0] and w1[1] < w2[1]))
+            R.check(ok, "R-C08-4", inst, f.loc(), "multi-label: hits h written to the segment, then 2h - 1", "multi-label encoding is no longer `2*hit - 1` over [column, column+colsize)")
+    R.floor("R-C08-4", n, 2, "encoding loops in the generators (single- and multi-label instantiations)")
+    # dataset_t::targets
+    t = F.one("nano::dataset_t::targets", "src/dataset.cpp")
+    m = 0
+    for _, g in F.lambdas_in(t):
+        if len(g.params) != 1 or g.params[0]["n"] != "it":
+            continue
+        binds = [b["n"] for v in g.nodes() if v["k"] == "var" for b in v.get("bindings", ())]
+        if "label" in binds:
+            m += 1
+            fills = [c for c in g.calls(lambda c: callee(c).split("::")[-1] == "setConstant" and pp(obj(c)) == "storage.array(index)" and pp(args(c)[0]) in ("(-1)", "-1"))]
+            hot = [x for x in g.nodes() if assignment(x) and pp(assignment(x)[0]) == "storage.array(index)(cast<long>(label))"]
+            ok = len(fills) == 1 and len(hot) == 1 and pp(assignment(hot[0])[1]) in ("(+1)", "1")
+            if ok:
+                cfg = g.cfg
+                w1, w2 = cfg.where_enclosing(fills[0]), cfg.where_enclosing(hot[0])
+                ok = w1 is not None and w2 is not None and (cfg.dominates(w1, w2) or (w1[0] == w2[0] and w1[1] < w2[1]))
+            rz = [v for v in g.nodes() if v["k"] == "var" and v["n"] == "storage" and v.get("c")]
+            ok = ok and len(rz) == 1 and pp(rz[0]["c"][0]) == "resize_and_map(buffer, samples.size(), feature.classes(), 1, 1)"
+            R.check(ok, "R-C08-4", "targets sclass", g.loc(), "one-hot over feature.classes() columns: fill -1, +1 at the label", "single-label targets are no longer `fill -1; +1 at label` over classes() columns")
+        elif "hits" in binds:
+            m += 1
+            asg = [x for x in g.nodes() if assignment(x) and pp(assignment(x)[0]) == "storage.array(index)"]
+            ok = len(asg) == 1 and pp(assignment(asg[0])[1]).replace("<double>", "") in ("((hits.array().cast() * 2) - 1)", "((2 * hits.array().cast()) - 1)")
+            R.check(ok, "R-C08-4", "targets mclass", g.loc(), "multi-label targets are 2*hit - 1", "multi-label targets are no longer 2*hit - 1: %s" % ([pp(assignment(x)[1]) for x in asg][:1]))
+    R.floor("R-C08-4/targets", m, 2, "target encoders")
+
+
+def rule_columns(F, R):
+    """R-C08-7: the two passes of dataset_t::update and the identity encoders agree on the number of columns per feature type"""
+    f = F.one("nano::dataset_t::update", "src/dataset.cpp")
+    sws = [x for x in f.nodes() if x["k"] == "switch"]
+    if len(sws) != 2:
+        R.bad("R-C08-7", "update passes", f.loc(), "expected two switches over the feature type, found %d" % len(sws))
+        return
+    tabs = []
+    for sw in sws:
+        tab = {}
+        for label, nodes in switch_table(f, sw).items():
+            exprs = []
+            for nd in nodes:
+                for x in walk(nd):
+                    a = assignment(x)
+                    if a and pp(a[0]) in ("total_columns", "columns"):
+                        exprs.append(pp(a[1]))
+            tab[label] = exprs
+        tabs.append(tab)
+    want = {"sclass": ["(feature.classes() - 1)"], "mclass": ["feature.classes()"], "default": ["size<3UL>(feature.dims())"]}
+    norm = lambda t: {k.split("::")[-1]: [re.sub(r"size<[^>]*>", "size", e) for e in v] for k, v in t.items()}
+    ok = norm(tabs[0]) == norm(tabs[1])
+    R.check(ok, "R-C08-7", "update passes agree", f.loc(), "both passes count the same number of columns per feature type", "the two passes of dataset_t::update disagree: %s vs %s" % (tabs[0], tabs[1]))
+    okw = norm(tabs[0]) == norm(want)
+    R.check(okw, "R-C08-7", "column counts", f.loc(), "single-label C-1, multi-label C, otherwise the product of the dims", "column count per feature type changed: %s" % tabs[0])
+    ops = [a[2] for x in f.nodes() for a in [assignment(x)] if a and pp(a[0]) == "total_columns"]
+    R.check(all(o == "+=" for o in ops) and len(ops) == 3, "R-C08-7", "column total", f.loc(), "the total is the sum over all features", "total_columns is not accumulated with += in every case")
+    # the identity encoders report the same colsize
+    exp = {"sclass_identity_t": "(mapped_classes(ifeature) - 1)", "mclass_identity_t": "mapped_classes(ifeature)", "scalar_identity_t": "1", "struct_identity_t": "size(mapped_dims(ifeature))"}
+    n = 0
+    for g in F.functions.values():
+        if g.name == "process" and g.cls and g.cls.split("::")[-1] in exp and g.relfile == "include/nano/generator/elemwise_identity.h":
+            cs = [v for v in g.nodes() if v["k"] == "var" and v["n"] == "colsize" and v.get("c")]
+            got = re.sub(r"size<[^>]*>", "size", pp(cs[0]["c"][0])) if cs else None
+            if got is not None:
+                got = re.sub(r"^cast<long>\(\{?(\d+)\}?\)$", r"\1", got)
+            n += 1
+            R.check(got == exp[g.cls.split("::")[-1]], "R-C08-7", g.cls.split("::")[-1] + " colsize", g.loc(), "colsize = %s" % exp[g.cls.split("::")[-1]], "identity encoder reports colsize %s" % got)
+    R.floor("R-C08-7/colsize", n, 4, "identity encoders")
+
+
 def run(ctx):
     R = ctx.report
     tus = ctx.all_tus() if ctx.thorough else TUS
@@ -469,3 +580,5 @@ def run(ctx):
     rule_mask(F, R)
     rule_widen_first(F, R, anchored)
     rule_pair_rows(F, R)
+    rule_encodings(F, R)
+    rule_columns(F, R)
